@@ -326,8 +326,18 @@ func (s *zzSim) finalChecks() {
 				fees += p.fee()
 				nFwdSucc++
 			}
-		} else if p.forwarded() {
-			nFwdFail++
+		} else {
+			if p.forwarded() {
+				nFwdFail++
+			}
+			reason := resErr
+			if i := strings.IndexAny(reason, "({\n"); i > 0 {
+				reason = reason[:i]
+			}
+			if len(reason) > 60 {
+				reason = reason[:60]
+			}
+			r.Count("payfail[" + zzKindNames[p.kind] + "]: " + reason)
 		}
 	}
 
